@@ -14,6 +14,7 @@ theorem display_eq (fmt : F → String) (s : SlowStochastic F) :
 
 theorem default_eq : (default_ : Option (SlowStochastic F)) = some (fresh 14 3) := by
   unfold default_
+  try simp only [gen_helper]
   rw [new_eq]
   simp [unwrap, isizeMax]
 
